@@ -290,6 +290,16 @@ func (cc *cacheController) flush() {
 	for k, sem := range cc.lockSems {
 		sem.Unlock()
 		delete(cc.lockSems, k)
+	} // A fill interrupted between the push into L1 and the state update leaves a
+	// line that the protocol does not know about: drop it
+	var orphans []comp.AlignedAddress
+	for _, line := range cc.l1d.Lines() {
+		if cc.msi.states[msiEntry{cc.id, line.Boundary[0]}] == invalid {
+			orphans = append(orphans, line.Boundary[0])
+		}
+	}
+	for _, addr := range orphans {
+		cc.l1d.EvictCacheLine(addr)
 	}
 }
 
